@@ -24,6 +24,7 @@ SPECIAL_SORTS = {
     "$olen": AVI,       # ordered view of a dict: number of entries
     "$okey": AVAIV,     # ordered view: key at position
     "$oval": AVAIV,     # ordered view: value at position
+    "$dynattr": AVAVV,  # getattr/setattr with a run-time attribute name
 }
 
 
@@ -129,6 +130,7 @@ class State:
         self.exc_stack = []   # exceptions being handled (for bare raise)
         self.dead = False
         self.fresh = []       # [obj, epoch, set(fields already closed)] allocated on this path
+        self.unescaped = []   # fresh objects not yet stored into the heap / passed to a call
 
     def copy(self):
         s = State.__new__(State)
@@ -141,6 +143,7 @@ class State:
         s.exc_stack = list(self.exc_stack)
         s.dead = self.dead
         s.fresh = [[o, e, set(c)] for o, e, c in self.fresh]
+        s.unescaped = list(self.unescaped)
         return s
 
     def assume(self, f, note=None):
